@@ -44,7 +44,7 @@ func (b *brokenFile) Read(p []byte) (int, error) {
 var zoneFrags = []string{"$ORIGIN ", "$TTL ", "$INCLUDE ", "$GENERATE ", "$GENERATE 1-3 ", "$GENERATE 0-70000 ", "$INCLUDE self.db\n", "$INCLUDE /etc/passwd\n", "$INCLUDE ../x\n",
 	"example.org. ", "@ ", "www ", "3600 ", "1h ", "IN ", "CH ", "A ", "MX ", "TXT ", "SOA ", "NSEC ", "NSEC3 ", "LOC ", "SVCB ", "HIP ", "TYPE65280 ", "CLASS32 ", "\\# ", "4 ", "0A000001",
 	"10.0.0.1", "::1", "( ", ") ", "(", ")", "\"", "\"unterminated", "\\", "\\\"", "\\000", "\\999", ";", "; comment\n", "\n", "\r\n", "\t", " ", "\x00", "\xff", "$", "${0,3,d}", "${", "}",
-	"a.b.c.", "..", ".", "*", "_", "=", "alpn=h2", "key65535=x", "1 . ", "ns1 host 1 2 3 4 5", "52 22 23.000 N 4 53 32.000 E -2.00m", strings.Repeat("x", 300), strings.Repeat("(", 40)}
+	"a.b.c.", "..", ".", "*", "_", "=", "alpn=h2", "key65535=x", "APL ", "1:10.0.0.0/33 ", "!1:10.0.0.0/8 ", "IPSECKEY ", "10 1 2 ", "AMTRELAY ", "HTTPS ", "port=99999 ", "ipv4hint=1.2.3 ", "1 . ", "ns1 host 1 2 3 4 5", "52 22 23.000 N 4 53 32.000 E -2.00m", strings.Repeat("x", 300), strings.Repeat("(", 40)}
 
 func genHostileZone(r *Rng) string {
 	var sb strings.Builder
@@ -154,6 +154,8 @@ var hostileCorpus = []string{
 	"a NSEC b. A ) \nb A 10.0.0.1\n",
 	"$INCLUDE x sub\nafter A 10.0.0.9\n",
 	"a A 10.0.0.1 ) \nb A 10.0.0.2\n",
+	"a APL 1:10.0.0.0/33\n", "a APL 3:0/0\n", "a APL !1:10.0.0.0/8 x\n", "a SVCB 1 . port=99999\n", "a HTTPS 1 . ipv4hint=1.2.3\n",
+	"a SVCB 1 . mandatory=alpn\n", "a IPSECKEY 10 1 2 bad key\n", "a IPSECKEY 10 3 2 .. AQ==\n", "a AMTRELAY 10 1 9 x\n", "a AMTRELAY 10 0 1 999.0.0.1\n",
 	"TYPE\n", "CLASS\n", "a TYPE A\n", "a CLASS A\n", "a CLASS1x A 1.2.3.4\n", "a TYPE1x 1\n",
 }
 
@@ -202,6 +204,10 @@ func runC07(c *Ctx) {
 			c.Hit("zone:error")
 			c.Pred("hostile", "error-sticky", in, zr.afterErr == 0 && zr.errStable, fmt.Sprint(zr.afterErr, " records after the error; stable=", zr.errStable), "none", nt)
 			c.Pred("hostile", "error-has-position", in, !zr.syntaxErr || strings.Contains(zr.errText, "line:") || strings.Contains(zr.errText, "failed to open"), zr.errText, "file / line / column", nt)
+			if zr.syntaxErr && !strings.Contains(text, "$INCLUDE") {
+				// no other file is involved: the error names the file the parser was given
+				c.Pred("hostile", "error-names-file", in, strings.HasPrefix(zr.errText, "hostile.db: dns: "), zr.errText, "hostile.db: dns: ...", nt)
+			}
 		} else {
 			c.Hit("zone:clean")
 		}
